@@ -91,6 +91,7 @@ def r2(ctx):
         ev = evaluator(ctx)
         s = ev.symbolic_instance(ci)
         o = Obj(ci.name, {}, 'other', ci)
+        o.typed = False
         out = ev.run(eq, [s, o], {})
         construct = f'{ci.name}.__eq__'
         compared = set()
